@@ -27,12 +27,16 @@ class Executor(ExternMixin, ExprMixin, CallMixin, BuiltinMixin, StmtMixin, Engin
         new = {g: self.ev_spec(u, env) for g, u in c.get('on_yield', {}).items()}
         self.st.ghost.update(new)
         self.st.out.append(val)
+        for loc in c.get('yield_havoc', []):
+            self.havoc_location(loc, env, c)
+        if c.get('yield_may_raise') and self.st.oracle.choose(2) == 1:
+            raise PyRaise('AnyException', 'thrown into the generator at yield')
 
     # ------------------------------------------------------------ one path
     def find_function(self, key, c):
         target = c.get('target', key)
         cls, _, name = target.rpartition('.')
-        if cls:
+        if cls and cls in self.src.classes:
             kind = c.get('kind', 'plain')
             if name.endswith('.setter'):
                 name, kind = name[:-7], 'set'
@@ -45,6 +49,22 @@ class Executor(ExternMixin, ExprMixin, CallMixin, BuiltinMixin, StmtMixin, Engin
         if name in self.src.funcs:
             fn, mod = self.src.funcs[name]
             return fn, None, mod, {}
+        if cls and (cls in self.src.funcs or '.' in cls):
+            # nested function:  outer.inner  or  Class.method.inner
+            parts = target.split('.')
+            node, mod, owner = None, None, None
+            if parts[0] in self.src.funcs:
+                node, mod = self.src.funcs[parts[0]]
+                rest = parts[1:]
+            elif parts[0] in self.src.classes:
+                owner = parts[0]
+                node, _, _ = self.src.find_method(parts[0], parts[1])
+                mod = self.src.classes[owner].module
+                rest = parts[2:]
+            for nm in rest:
+                node = next((n for n in ast.walk(node) if isinstance(n, ast.FunctionDef) and n.name == nm and n is not node), None) if node else None
+            if node is not None:
+                return node, None, mod, {'nested_in': owner}
         if name in self.spec_funcs:
             return self.spec_funcs[name], None, '<spec>', {}
         raise Unsupported(f'contract binding lost: {target}')
@@ -84,6 +104,8 @@ class Executor(ExternMixin, ExprMixin, CallMixin, BuiltinMixin, StmtMixin, Engin
             params = params[1:]
         pspecs = dict(c.get('params', {}))
         pspecs.update(case)
+        for cn, cs in c.get('closure', {}).items():
+            env[cn] = self.fresh_of(case.get(cn, cs), cn)
         for p in params + [a.arg for a in fn.args.kwonlyargs]:
             if p not in pspecs:
                 raise Unsupported(f'{key}: no type for parameter {p}')
@@ -129,8 +151,12 @@ class Executor(ExternMixin, ExprMixin, CallMixin, BuiltinMixin, StmtMixin, Engin
             self.in_body = False
         # ---- exit obligations
         declared = c.get('raises', {})
-        if outcome[0] == 'raise' and outcome[1] == 'StubException':
-            return outcome       # an exception of an abstract callee propagates: allowed by definition, nothing to prove
+        if outcome[0] == 'raise' and outcome[1] in ('StubException',) + tuple(c.get('may_raise', [])):
+            # an exception of an abstract callee / of the environment propagates: only the exceptional postconditions apply
+            penv = dict(old_env)
+            for nm, r in self.clauses(c.get('exc_ensures', [])):
+                self.oblige(f'exc-post#{nm}', self.truth(self.ev_spec(r, penv)), fn)
+            return outcome
         if outcome[0] == 'raise':
             exc = outcome[1]
             cond = declared.get(exc)
